@@ -271,6 +271,8 @@ def install(reg):
         loops={0: LoopSpec(invariants=[("lock", "holds('outbuf_lock')")] + OUT_INV)},
         modifies=["self.connected", "self.total_outbufs_len"], check_invariant=False))
     reg.funcs[CH + ".handle_close"].at_release = HANDLE_CLOSE_AT_RELEASE
+    # every queued output buffer (each may wrap a file handed over by the application) gets its close() at teardown, whatever the others do
+    reg.funcs[CH + ".handle_close"].loops[0].must_exhaust = "C09-every-queued-buffer-is-closed-at-teardown"
 
     reg.add(FuncContract(CH + "._flush_some", params={"do_close": Bool}, returns=Bool, requires=[R4, R3], raises=["OSError"], setup=alias,
         entry_holds={"W": ["outbuf_lock"], "IOL": ["outbuf_lock"]},
@@ -374,6 +376,11 @@ def install_service(reg):
         ensures_exc=[("C09-request-popped-or-connection-closing", "popped() or self.close_when_flushed")],
         loops={0: LoopSpec(invariants=[("lock", "holds('requests_lock')"),
                                        ("C11-close-decision-published-before-the-queue-is-dropped", "self.close_when_flushed")])}))
+    # the hand-over of the connection from one request to the next happens under requests_lock, on the queue as it is THEN:
+    # when the lock is released after the pop, a request still queued has a task, and no task exists without one
+    reg.funcs[CH + ".service"].at_release = {"requests_lock": [
+        ("C04-a-queued-request-always-has-a-task", "implies(popped() and self.connected and len(self.requests) >= 1, tasks_added() == 1)"),
+        ("C04-no-task-without-a-queued-request", "implies(len(self.requests) == 0, tasks_added() == 0)")]}
     reg.add(FuncContract(CH + ".received", params={"data": Bytes}, returns=Bool, raises=["OSError"], setup=alias,
         requires=[("io", "role_is('IO')")],
         loops={0: LoopSpec(invariants=[("lock", "holds('requests_lock')"),
@@ -409,7 +416,9 @@ def install_ctor(reg):
     reg.inline.update({"wasyncore.dispatcher.__init__", "wasyncore.dispatcher.set_socket", "wasyncore.dispatcher.add_channel", CH + ".add_channel"})
     reg.add(FuncContract(CH + ".__init__", params={"server": Obj(SERVER), "sock": Obj(SOCK), "addr": Opaque("addr"), "adj": Obj("adjustments.Adjustments"), "map": Opaque("socketmap")},
         fresh_self=True, raises=["OSError"], check_invariant=False,
-        ensures=[("C13-registered-in-map-and-active-channels", "registered() == 2"), ("connected", "self.connected")],
+        ensures=[("C13-registered-in-map-and-active-channels", "registered() == 2"), ("connected", "self.connected"),
+                 # the idle clock of a connection starts when it is accepted (a silent new connection gets a full channel_timeout)
+                 ("C18-activity-clock-starts-at-creation", "self.last_activity == self.creation_time")],
         ensures_exc=[("C13-nothing-registered-when-set-up-fails", "registered() == 0")]))
     reg.funcs[CH + ".__init__"].frame_check = False
 
